@@ -375,4 +375,97 @@ def t2(ctx):
 
 
 def run(ctx):
-    return [t1(ctx)] + t2(ctx)
+    return [t1(ctx)] + t2(ctx) + [t4(ctx)]
+
+
+# --------------------------------------------------------------------------- T4
+def t4(ctx):
+    """The two iterator stack machines and the first-match macros: small functions inspected against an enumerated
+    set of equivalent forms (DESIGN 8: one of the places where a single small body is inspected)."""
+    r = RuleResult('T4', 'Iter::next / EventIter::next: pop, expand children reversed once onto the same stack; Leave pushed before children')
+    files = sx.crate_files(ctx.syn, CRATE)
+    an = files.get('src/any_node.rs')
+    its = {}
+    for im in impls(an['items']):
+        if (im.get('trait_path') or '').split('::')[-1] == 'Iterator':
+            f = impl_fn(im, 'next')
+            if f is not None:
+                its[squash(im['self_tys'])] = f
+    r.exactly('iterator_impls', len(its), 2)
+
+    def analyse(f, event):
+        body = f['body']
+        stmts = body['stmts']
+        facts = {}
+        # 1. the value returned is the popped top of the stack
+        pops = [n for n in sx.walk(body) if n.get('k') == 'mcall' and n['m'] == 'pop']
+        facts['pops'] = [squash(sx.render(p)) for p in pops]
+        ret_var = None
+        if stmts and stmts[0]['k'] == 'let' and stmts[0].get('init') in pops:
+            ret_var = sx.pat_idents(stmts[0]['pat'])[0]
+        facts['returns_popped'] = bool(ret_var) and stmts[-1]['k'] == 'expr' and not stmts[-1].get('semi') and sx.is_path(stmts[-1]['e'], ret_var)
+        facts['single_pop_from_stack'] = facts['pops'] == ['self.next.0.pop()']
+        # 2. children: x.next() of the popped node, reversed exactly once, appended to the same stack
+        revs = [n for n in sx.walk(body) if n.get('k') == 'mcall' and n['m'] == 'reverse']
+        apps = [n for n in sx.walk(body) if n.get('k') == 'mcall' and n['m'] == 'append']
+        nexts = [n for n in sx.walk(body) if n.get('k') == 'mcall' and n['m'] == 'next' and not n['args']]
+        facts['reverse_calls'] = len(revs)
+        facts['append_target'] = [squash(sx.render(a['recv'])) for a in apps]
+        facts['children_from'] = [squash(sx.render(n['recv'])) for n in nexts]
+        ok = facts['returns_popped'] and facts['single_pop_from_stack'] and len(revs) == 1 and facts['append_target'] == ['self.next.0'] and len(nexts) == 1
+        if ok:
+            # reversed list is the one appended; and reversal precedes the append
+            rv = squash(sx.render(revs[0]['recv']))
+            av = squash(sx.render(sx.strip_ref(apps[0]['args'][0])))
+            ok = rv == av and (revs[0].get('l'), revs[0].get('col')) < (apps[0].get('l'), apps[0].get('col'))
+            facts['reversed_is_appended'] = ok
+        if event:
+            # Leave(x) pushed onto the same stack before the children are appended, only for Enter events
+            pushes = [n for n in sx.walk(body) if n.get('k') == 'mcall' and n['m'] == 'push']
+            facts['pushes'] = [squash(sx.render(p)) for p in pushes]
+            okp = len(pushes) == 1 and squash(sx.render(pushes[0]['recv'])) == 'self.next.0' and \
+                squash(sx.render(pushes[0]['args'][0])).startswith('NodeEvent::Leave(') and \
+                (pushes[0].get('l'), pushes[0].get('col')) < (apps[0].get('l'), apps[0].get('col')) if apps else False
+            enter_guard = any(n.get('k') == 'if' and n['c'].get('k') == 'let' and squash(sx.render(n['c']['pat'])).startswith('NodeEvent::Enter(')
+                              and any(x is pushes[0] for x in sx.walk(n['t'])) for n in sx.walk(body)) if pushes else False
+            facts['leave_pushed_first_under_enter'] = bool(okp and enter_guard)
+            ok = ok and okp and enter_guard
+        return ok, facts
+    for st, f in its.items():
+        event = st.startswith('EventIter')
+        ok, facts = analyse(f, event)
+        r.inst('next:' + st, {'impl': st, **facts})
+        if not ok:
+            r.fail('%s:%s:next' % (CRATE, st), '%s/src/any_node.rs:%s' % (CRATE, f['l']),
+                   '%s::next must pop the top, %sexpand the popped node\'s children reversed exactly once onto the same stack and return the '
+                   'popped item; found %s' % (st, 'push Leave(x) for an Enter(x) before its children, ' if event else '', facts))
+    # conversions used by event(): Iter -> EventIter and RefNodes -> NodeEvents keep order and wrap in Enter
+    n_conv = 0
+    for im in impls(an['items']):
+        if im.get('trait_path') == 'From' and squash(im['self_tys']) in ("EventIter<'a>", "NodeEvents<'a>"):
+            f = impl_fn(im, 'from')
+            fors = [n for n in sx.walk(f['body']) if n.get('k') == 'for']
+            n_conv += 1
+            ok = len(fors) == 1 and 'rev' not in squash(sx.render(fors[0]['e'])) and \
+                [squash(sx.render(s_)) for s_ in fors[0]['body']['stmts']] == ['ret.push(NodeEvent::Enter(x));']
+            r.inst('event-conversion:' + squash(im['self_tys']))
+            if not ok:
+                r.fail('%s:%s:event-conversion' % (CRATE, squash(im['self_tys'])), '%s/src/any_node.rs:%s' % (CRATE, f['l']),
+                       'conversion into %s must wrap every node in Enter, in the same order' % squash(im['self_tys']))
+    r.floor('event_conversions', n_conv, 2)
+    # unwrap_node! / unwrap_locate!: first match wins (return inside the for, None after it)
+    api = sx.crate_files(ctx.syn, 'sv-parser')['src/lib.rs']
+    macs = [it for mp, it in sx.items_rec(api['items']) if it['k'] == 'item_macro' and it.get('name') in ('unwrap_node', 'unwrap_locate')]
+    r.exactly('first_match_macros', len(macs), 2)
+    for mc in macs:
+        t = mc['tokens'].replace(' ', '')
+        r.inst('macro:' + mc['name'])
+        ok = 'forxin$n{matchx{' in t and '=>returnSome(' in t and t.count('None') >= 1 and t.index('returnSome(') < t.rindex('None') and '.rev()' not in t
+        if not ok:
+            r.fail('sv-parser:%s:first-match' % mc['name'], 'sv-parser/src/lib.rs:%s' % mc['l'],
+                   '%s! must iterate forward and return the first node of the requested kinds, None otherwise' % mc['name'])
+    return r
+
+
+def run(ctx):
+    return [t1(ctx)] + t2(ctx) + [t4(ctx)]
